@@ -326,6 +326,40 @@ def run(repo, rep, tier):
                 shared = (isinstance(gexp, ast.Name) and gexp.id in aliases) or (isinstance(gexp, ast.Call) and isinstance(gexp.func, ast.Name)
                                                                                  and gexp.func.id == "globals")
                 r2.ob(not shared, f"{fn.name}: FunctionType namespace `{ast.unparse(gexp)[:40]}`")
+                # precedence: what __reduce__ captured for the function (its own module-level names) overrides histogrammar.util's globals,
+                # never the reverse - the user's `minplus` or `relativeTolerance` must not be replaced by util's
+                def is_globals(e):
+                    return (isinstance(e, ast.Call) and isinstance(e.func, ast.Name) and e.func.id == "globals") or (isinstance(e, ast.Name) and e.id in aliases)
+
+                def layers_of(e):
+                    if isinstance(e, ast.Call) and isinstance(e.func, ast.Name) and e.func.id == "dict":
+                        out = [("G" if is_globals(a0) else "R") for a0 in e.args]
+                        out += [("G" if is_globals(k.value) else "R") for k in e.keywords if k.arg is None]
+                        return out
+                    if isinstance(e, ast.Dict):
+                        return [("G" if is_globals(v0) else "R") for k0, v0 in zip(e.keys, e.values) if k0 is None]
+                    if isinstance(e, ast.Call) and isinstance(e.func, ast.Attribute) and e.func.attr == "copy":
+                        return ["G" if is_globals(e.func.value) else "R"]
+                    return None
+                layers = None
+                if isinstance(gexp, ast.Name):
+                    defs = [x for x in walk_local_stmt(fn.node) if isinstance(x, ast.Assign) and any(isinstance(t, ast.Name) and t.id == gexp.id for t in x.targets)]
+                    if len(defs) == 1:
+                        layers = layers_of(defs[0].value)
+                        if layers is not None:
+                            ups = sorted((x for x in walk_local_stmt(fn.node) if isinstance(x, ast.Call) and isinstance(x.func, ast.Attribute) and x.func.attr == "update"
+                                          and isinstance(x.func.value, ast.Name) and x.func.value.id == gexp.id and x.args), key=lambda x: x.lineno)
+                            layers = layers + [("G" if is_globals(u.args[0]) else "R") for u in ups if u.lineno < n.lineno]
+                else:
+                    layers = layers_of(gexp)
+                if layers and "G" in layers and "R" in layers:
+                    okp = max(i for i, x in enumerate(layers) if x == "G") < min(i for i, x in enumerate(layers) if x == "R")
+                    r2.ob(okp, f"{fn.name}: captured references override the module's globals (layers {layers})")
+                    if not okp:
+                        rep.finding("R11.2", fn, n, f"the namespace of the rebuilt function is assembled with the module's globals() LAST (layers {layers}): a name that the "
+                                    f"pickled function captured from its own module and that histogrammar.util also defines (minplus, relativeTolerance, np ...) is "
+                                    f"replaced by util's object, so the clone computes other values than the original on further fills",
+                                    stmt="globals() override the captured references")
                 if shared:
                     rep.finding("R11.2", fn, n, f"the rebuilt function runs in the module's own globals() (`{ast.unparse(gexp)}`) instead of a fresh copy "
                                 f"with its captured references: every unpickled function shares one namespace, so the globals captured for "
